@@ -16,6 +16,7 @@ pub mod c13;
 pub mod c14;
 pub mod c15;
 pub mod c16;
+pub mod c17;
 pub mod c18;
 pub mod c19;
 pub mod c20;
@@ -43,6 +44,7 @@ pub fn all() -> Vec<Check> {
         Check { info: &c14::INFO, run: c14::run },
         Check { info: &c15::INFO, run: c15::run },
         Check { info: &c16::INFO, run: c16::run },
+        Check { info: &c17::INFO, run: c17::run },
         Check { info: &c18::INFO, run: c18::run },
         Check { info: &c19::INFO, run: c19::run },
         Check { info: &c20::INFO, run: c20::run },
